@@ -212,6 +212,11 @@ inductive Ev where
   | reorgDetected (next : Nat) (latest : Option Hdr)
   /-- one iteration of the running revertTask; `ans` = answer to `BlockByNumber(head.num)` -/
   | iter (ans : Option Blk) (revOk : Bool)
+  /-- `Run` was cancelled and has returned (all callbacks finished), and a NEW `Synchronizer` is
+  started on the same database: `currReorg` starts as nil, the feeds are new. (While a `revertTask`
+  runs `Run` cannot return: the cancelled context makes its next `BlockByNumber` fail, which is an
+  `iter none`.) -/
+  | restart
 deriving Repr, Inhabited
 
 structure Impl where
@@ -263,6 +268,10 @@ def Impl.step (cfg : Cfg) (s : Impl) : Ev → Impl × List Obs
         | .revert cont =>
           let (n, o) := revertHead s.node hd revOk
           ({ s with node := n, task := if cont then some lpv else none }, o)
+  | .restart =>
+    match s.task with
+    | some _ => (s, [])
+    | none => ({ s with node := { s.node with reorg := none } }, [])
 
 def Impl.run (cfg : Cfg) (s : Impl) : List Ev → Impl × List Obs
   | [] => (s, [])
@@ -333,6 +342,8 @@ inductive SEv where
   | latest (h : Hdr)
   /-- an observation -/
   | obs (o : Obs)
+  /-- the synchroniser was shut down and a new instance started -/
+  | restart
 deriving Repr, Inhabited
 
 structure Spec where
@@ -362,6 +373,7 @@ inductive Reject where
   | storedNotServed | storedNotVerified | storedNotSuccessor
   | revertNotHead | revertNotJustified | revertFailed
   | notifUnexpected
+  | notifOwedAtShutdown
 deriving DecidableEq, Repr
 
 def Reject.name : Reject → String
@@ -372,10 +384,14 @@ def Reject.name : Reject → String
   | .revertNotJustified => "revert-without-evidence"
   | .revertFailed => "revert-head-failed"
   | .notifUnexpected => "notification-unexpected"
+  | .notifOwedAtShutdown => "notification-owed-at-shutdown"
 
 def Spec.step (strict : Bool) (s : Spec) : SEv → Except Reject Spec
   | .served req b => .ok { s with ev := { s.ev with blocks := (req, b) :: s.ev.blocks } }
   | .latest h => .ok { s with ev := { s.ev with latests := h :: s.ev.latests } }
+  | .restart =>
+    -- nothing may be left unsent when `Run` returns; reverts not yet announced are forgotten
+    if s.owed.isEmpty then .ok { s with pending := [] } else .error .notifOwedAtShutdown
   | .obs (.stored num hash) =>
     match s.ev.blocks.find? (fun rb => rb.2.num == num && rb.2.hash == hash && rb.2.ok) with
     | none =>
